@@ -7,6 +7,7 @@ result = {"obs": [per-op observation], "fresh": ["tree"|"none" per text], "db_ro
 
 Time source (time.time_ns) and pymoca.__version__ are patched; every case gets its own cache folder.
 """
+import faulthandler
 import hashlib
 import importlib
 import os
@@ -217,7 +218,26 @@ def store_facts(path, texts):
     return out
 
 
+CASE_TIMEOUT_S = 150
+try:  # a runaway case must not take the machine down
+    import resource
+    resource.setrlimit(resource.RLIMIT_AS, (3 * 2**30, 3 * 2**30))
+except Exception:  # noqa
+    pass
+_hang_log = open("c01_hang.txt", "a")
+
+
 def handler(case):
+    # watchdog: a case that hangs dumps its traceback to ./c01_hang.txt and kills this child (the parent
+    # records a crash for the case and continues with a new child)
+    faulthandler.dump_traceback_later(CASE_TIMEOUT_S, exit=True, file=_hang_log)
+    try:
+        return _handler(case)
+    finally:
+        faulthandler.cancel_dump_traceback_later()
+
+
+def _handler(case):
     texts = case["texts"]
     folder = tempfile.mkdtemp(prefix="c01_")
     _clock["us"] = 0
